@@ -592,6 +592,8 @@ def attribute(obs, exp_r, got_r, what, detail):
     props = set()
     life = "RuntimeError" in (exp_r, got_r)
     if what == "result":
+        if isinstance(got_r, str) and got_r.startswith("unexpected:"):
+            props.add("C13" if ("RuntimeError" in got_r or a in ("Create", "Enter", "BeginClose", "EndClose", "Close", "AddTd")) else "C03" if a in ("AddRes", "AddFac") else "C02")
         if life:
             props.add("C13")
         if "StackCorruption" in (exp_r, got_r):
@@ -679,7 +681,10 @@ async def check_step(real: Real, obs, to_enc, before_proj, failed_expected):
     ev_before = {k: len(v) for k, v in real.events.items()}
     td_before = len(real.tdlog)
     calls_before = dict(real.calls)
-    got_r, got_v = await real.step(obs)
+    try:
+        got_r, got_v = await real.step(obs)
+    except Exception as e:  # noqa: BLE001 - the driver never dies: an unexpected exception out of a harness call is an observation
+        got_r, got_v = "unexpected:" + type(e).__name__, None
     await vclock.quiescent()
     exp_r = obs["r"]
     if exp_r == "StackCorruptionOrOwn" and got_r in ("StackCorruption", obs.get("how")):
@@ -798,7 +803,10 @@ def _walk_part(args):
                 todo_loops.discard(target)
                 todo_edges[target] = []
                 mism.append(Mismatch(bad[3], bad[0], obs, bad[1], bad[2], list(trail)))
-                await real.finish()
+                try:
+                    await real.finish()
+                except Exception:  # noqa: BLE001
+                    pass
                 return
             while True:
                 st = g.states[cur]
@@ -825,7 +833,10 @@ def _walk_part(args):
                     mism.append(Mismatch(bad[3], bad[0], obs, bad[1], bad[2], list(trail)))
                     break
                 cur = tk
-            await real.finish()
+            try:
+                await real.finish()
+            except Exception:  # noqa: BLE001
+                pass
             stats["tours"] += 1
 
         async with anyio.create_task_group() as tg:
